@@ -383,12 +383,12 @@ fn check_model(
             }
         }
     }
-    if exact {
+    {
         // far windows: max_events of a (jittered) periodic / sporadic process is eventually
         // periodic, max(x + T) = max(x) + 1; validated on the explored range, then extended
         fn period_of(s: &ArrSpec) -> Option<u64> {
             match s {
-                ArrSpec::Periodic { t } | ArrSpec::Sporadic { t, .. } => Some(*t),
+                ArrSpec::Periodic { t } | ArrSpec::Sporadic { t, .. } | ArrSpec::CurveFromPeriodic { t } | ArrSpec::CurveFromSporadic { t, .. } | ArrSpec::SporadicFromPeriodic { t } => Some(*t),
                 ArrSpec::Jitter { inner, .. } | ArrSpec::Propagated { inner, .. } => period_of(inner),
                 _ => None,
             }
@@ -397,12 +397,15 @@ fn check_model(
             let tu = t as usize;
             if h >= 3 * tu && (h - 2 * tu..=h - tu).all(|x| m[x + tu] == m[x] + 1) {
                 let lo = (h - 2 * tu) as u64;
-                for far in [1_000_000_007u64, (1 << 40) + 1, (1 << 60) + 3] {
+                for far in [461u64, 997, 5003, 500 * t + 1, 1_000_000_007u64, (1 << 40) + 1, (1 << 60) + 3] {
+                    if far <= lo {
+                        continue;
+                    }
                     let base = lo + (far - lo) % t;
                     let want = m[base as usize] + (far - base) / t;
                     st.2 += 1;
                     match catch(|| ab.number_arrivals(d(far)) as u64) {
-                        Ok(e) if e == want => {}
+                        Ok(e) if e == want || (!exact && e > want) => {}
                         Ok(e) => ctx.violation(
                             &format!("{name}::number_arrivals#{}+far-window", if e < want { "undercounts" } else { "not-attained" }),
                             &format!("{:?}.number_arrivals({far}) = {e}, the periodic extension of the maximum over all admissible sequences is {want}", spec),
@@ -505,7 +508,15 @@ pub fn run_c10(ctx: &mut Ctx) -> (String, Value, Vec<String>) {
         check_model(ctx, "arrival::Periodic", &spec, &Aut::Sporadic { t: t as i16, j: 0 }, h, true, &mut st, &mut samples);
         let spec = ArrSpec::SporadicFromPeriodic { t };
         check_model(ctx, "arrival::Sporadic::from(Periodic)", &spec, &Aut::of(&spec).unwrap(), h, true, &mut st, &mut samples);
-        models += 3;
+        // the same processes converted into delta-min curves (upper bounds, not necessarily exact)
+        let spec = ArrSpec::CurveFromPeriodic { t };
+        check_model(ctx, "Curve::from(Periodic)", &spec, &Aut::Sporadic { t: t as i16, j: 0 }, h, false, &mut st, &mut samples);
+        for j in [0, 1, t, 2 * t + 1] {
+            let spec = ArrSpec::CurveFromSporadic { t, j };
+            check_model(ctx, "Curve::from(Sporadic)", &spec, &Aut::Sporadic { t: t as i16, j: j as i16 }, h, false, &mut st, &mut samples);
+            models += 1;
+        }
+        models += 4;
     }
     {
         // larger parameters (the automata stay small: T + J states)
